@@ -8,6 +8,7 @@
   IEEE rounding is not modelled.
 -/
 import SnowProofs.Lemmas.FlakeStep
+import SnowProofs.Lemmas.FlakeGeom
 import SnowProofs.Props.C05
 
 namespace Snow.C01
@@ -29,6 +30,49 @@ theorem heat_cancels (p : Params ℝ) (Ts : Array ℝ) (n : Nat) (hs : SymNbrs p
     ∑ i ∈ Finset.range n,
       ((p.nbrs.getD i []).map fun j => p.kInt * p.A * (Ts.getD j 0 - Ts.getD i 0)).sum = 0 :=
   qPair_sum_zero p Ts n hs
+
+/-- **energy exchanged between vials cancels exactly over the batch — for every declared
+shape and both arrangements, with no hypothesis on the neighbour structure**: the model computes
+the neighbour lists of the shape itself (`nbrsOf`, the closed form of
+`_buildInteractionMatrices`, C09) and they are symmetric. -/
+theorem heat_cancels_shape (p : Params ℝ) (arr : Snow.Topology.Arr) (nx ny nz : Nat) (Ts : Array ℝ) :
+    ∑ i ∈ Finset.range (Snow.Topology.nTot nx ny nz), qInt (p.withShape arr nx ny nz) Ts i = 0 := by
+  simp only [qInt_eq]
+  exact qPair_sum_zero (p.withShape arr nx ny nz) Ts _ (symNbrs_shape arr nx ny nz)
+
+/-- **the net heat flow of a vial in a declared shape** is: the sum over its GEOMETRIC
+neighbours (C09 `geomNbr`: square — the four in-plane lattice neighbours; hexagonal — six,
+alternate rows offset by half a pitch; plus the vial directly above/below) of
+`k_int·A·(T_j − T_i)`, plus `(maxNbr − #neighbours)` free faces exchanging with the surroundings,
+plus the shelf. -/
+theorem q_refines_shape (p : Params ℝ) (arr : Snow.Topology.Arr) (nx ny nz : Nat) (Ts : Array ℝ)
+    (Tsh Text : ℝ) (i : Nat) (hi : i < Snow.Topology.nTot nx ny nz) :
+    heatFlow (p.withShape arr nx ny nz) Ts Tsh Text i =
+      (∑ j ∈ (Finset.range (Snow.Topology.nTot nx ny nz)).filter
+          (fun j => Snow.Topology.geomNbr arr (Snow.Topology.coords nx ny i)
+            (Snow.Topology.coords nx ny j) = true),
+          p.kInt * p.A * (Ts.getD j 0 - Ts.getD i 0))
+      + ((Snow.Topology.maxNbr arr nz : ℝ) - (Snow.Topology.geomDeg arr nx ny nz i : ℝ))
+          * p.kExt * p.A * (Text - Ts.getD i 0)
+      + p.kShelf.getD i 0 * p.A * (Tsh - Ts.getD i 0) := by
+  rw [heatFlow_eq]
+  have hnb : (p.withShape arr nx ny nz).nbrs = nbrsOf arr nx ny nz := rfl
+  have hext : (p.withShape arr nx ny nz).ext = extOf arr nx ny nz := rfl
+  have hk : (p.withShape arr nx ny nz).kInt = p.kInt ∧ (p.withShape arr nx ny nz).A = p.A ∧
+      (p.withShape arr nx ny nz).kExt = p.kExt ∧ (p.withShape arr nx ny nz).kShelf = p.kShelf :=
+    ⟨rfl, rfl, rfl, rfl⟩
+  have hq := qPair_as_sum (p.withShape arr nx ny nz) Ts (Snow.Topology.nTot nx ny nz) i
+    ((symNbrs_shape arr nx ny nz).lt i hi)
+  rw [hq, hnb, hext, hk.1, hk.2.1, hk.2.2.1, hk.2.2.2, nbrsOf_getD arr nx ny nz i hi,
+    extOf_getD arr nx ny nz i hi, Snow.C09.deg_eq_geomDeg arr hi, Finset.sum_filter]
+  congr 1
+  · congr 1
+    · apply Finset.sum_congr rfl
+      intro j hj
+      have hj' := Finset.mem_range.mp hj
+      rw [count_nbrRow, if_pos hj', Snow.Topology.entry_geom arr hi hj']
+      split <;> simp
+    · push_cast; ring
 
 /-- **liquid step**: `m·c_p·ΔT = q·Δt`. -/
 theorem liquid_is_sensible (ph : Phys) (h : ph.Valid) (dt q T : ℝ) :
